@@ -215,6 +215,8 @@ def gen_cylinder(rng, optics, xmax=5.0, aspect=(0.6, 1.8), rot=True, center=None
     x = float(loguniform(rng, 0.5, xmax))
     d = 2 * x / k
     h = d * float(rng.uniform(*aspect))
+    if rng.random() < 0.15:
+        h = d          # the square cylinder (diameter = height): eps = 1 in the T-matrix code without being a sphere
     c = center or [float(rng.uniform(0, 2)), float(rng.uniform(0, 2)), float(rng.uniform(8, 25))]
     return {"t": "cylinder", "n": gen_index(rng, optics, absorbing=(rng.random() < 0.2), hi=1.6), "h": h, "d": d,
             "rot": [0.0, float(rng.uniform(0, math.pi)), float(rng.uniform(0, 2 * math.pi))] if rot else [0.0, 0.0, 0.0], "c": c}
